@@ -181,6 +181,7 @@ HAND = {
     "SharedAlias": (False, "vcommon::hand::Shared"), "NamedPrim": (False, None), "HandBits": (False, None), "HandBitsMsb": (False, None),
     "LocalA": (False, None), "LocalB": (False, None),
     "FaultyLeaf": (False, None), "FaultyGood": (False, None), "FaultyParent": (False, None),
+    "MixedFields": (False, None), "MixedVariant": (False, None),
 }
 
 
@@ -273,6 +274,11 @@ def core_types():
             # every fifth level branches: the sibling is a type nothing else mentions, first met after the deep part
             d = [T("option", [d]), T("vec", [d]), T("tuple", [d, T("array", [P("i16")], 1000 + depth + i)]), T("array", [d], 1), T("option", [T("box", [d])])][i % 5]
         out.append(d)
+    # beyond 1024 levels (a plain alternation of Option and Vec, ending in char so that no value machinery is instantiated)
+    d = T("char")
+    for i in range(1100):
+        d = T("option", [d]) if i % 2 == 0 else T("vec", [d])
+    out.append(d)
     # PhantomData first, then several real members
     out += [T("tuple", [T("phantom", [U8]), U8, U16, STRING]), T("tuple", [U8, T("phantom", [U8]), U16, U32, BOOL]), T("tuple", [T("phantom", [U8]), T("phantom", [U16]), U8, U16, U32])]
     # a user type that is merely *named* PhantomData is an ordinary member
